@@ -396,6 +396,36 @@ def k_encodings(ctx, exe):
     ctx.obligation(bad == 0, "K:encodings")
 
 
+def k_dataparser_chunks(ctx):
+    """DataParser: splits at line ends (how gama-g3 feeds it) must not change the verdict; every-byte splits are tried too and a
+    difference inside a token is the recorded finding C11:dataparser-text-pieces"""
+    exe = vlib.compile_harness("harness/dp.cpp", link_gama=True, sanitize=True)
+    files = [f for f in sorted(glob.glob(os.path.join(vlib.REPO, "tests/gama-g3/input/*.xml"))) if 0 < os.path.getsize(f) < (6000 if ctx.quick else 40000)]
+    docs = [open(f, "rb").read() for f in files[:3 if ctx.quick else 12]]
+    rc, lines, err = run_gkf(exe, [("S", d) for d in docs] + [("L", d) for d in docs])
+    bad = 0
+    if rc != 0:
+        bad += 1
+        ctx.violation({"kind": "K:dataparser-chunks", "rc": rc, "stderr": err[-2500:]}, "DataParser harness died during chunked delivery (rc %d)" % rc)
+    for d, ln in zip(docs, lines[len(docs):]):
+        if not ln.startswith("same"):
+            bad += 1
+            ctx.violation({"kind": "K:dataparser-chunks", "input": d.decode("latin-1"), "result": ln[:300]},
+                          "DataParser: delivering the document line by line changes the result: %s" % ln[:200])
+    for d, ln in zip(docs, lines):
+        ctx.count(("dp-split", d[:200], len(d)), nontrivial=True, n=len(d) + 1)
+        if ln.startswith("same"):
+            continue
+        k = int(ln.split()[1])
+        inside_token = 0 < k < len(d) and not chr(d[k - 1]).isspace() and not chr(d[k]).isspace() and d[k - 1:k] != b">" and d[k:k + 1] != b"<"
+        at_line_end = k > 0 and d[k - 1:k] == b"\n"
+        key = "C11:dataparser-text-pieces" if (inside_token and not at_line_end) else None
+        if ctx.violation({"kind": "K:dataparser-chunks", "input": d.decode("latin-1"), "split_at": k, "context": d[max(0, k - 30):k + 30].decode("latin-1"), "result": ln[:300]},
+                         "DataParser: delivering the document in two chunks split at byte %d changes the result" % k, key=key):
+            bad += 1
+    ctx.obligation(bad == 0, "K:dataparser-chunks")
+
+
 # ------------------------------------------------------------------------------------------------
 # E: the executables under sanitizers
 
@@ -707,6 +737,7 @@ def run(ctx):
     accepted_docs = k_events(ctx, exe, proofs_ok) or []
     k_chunks(ctx, exe, accepted_docs)
     k_encodings(ctx, exe)
+    k_dataparser_chunks(ctx)
     c18.k_literals(ctx)
     bdir = vlib.build_repo(sanitize=True)
     e_gama_local(ctx, bdir)
